@@ -132,12 +132,17 @@ def validate_records(records, *, defdid="hash", mk=1, module="TraceCore.tla", sh
     d = WORK / "traces"
     d.mkdir(parents=True, exist_ok=True)
     uniq = f"{tag}-{os.getpid()}-{time.time_ns()}"
+    # keep every shard small enough for TLC's JSON reader (one JVM per shard, 16 at a time)
+    texts = [json.dumps(r) for r in good]
+    total = sum(len(t) for t in texts)
+    shards = max(shards, -(-total // 25_000_000))
     files = []
     for k in range(shards):
         p = d / f"{uniq}-{k}.json"
         with open(p, "w") as f:
-            json.dump(good[k::shards], f)
+            f.write("[" + ",".join(texts[k::shards]) + "]")
         files.append(p)
+    del texts
     cfg = WORK / "cfg" / f"{uniq}.cfg"
     cfg.parent.mkdir(parents=True, exist_ok=True)
     consts = {"MetaKeys": mk} if nutree_consts else {}
